@@ -275,8 +275,8 @@ def gen_plan(verif_seed, run):
     fav_dir = o.choice(dirs)
     ops = []
     saves = {"process": [], "curve": [], "fn": [], "cond": []}
-    weights = [("save_process", 34), ("load_process", 20), ("save_curve", 7), ("load_curve", 6), ("save_fn", 6), ("load_fn", 5),
-               ("save_cond", 3), ("load_cond", 3), ("load_membrane", 4), ("restart", 7), ("delete_process", 4)]
+    weights = [("save_process", 34), ("load_process", 20), ("save_curve", 7), ("load_curve", 9), ("save_fn", 6), ("load_fn", 7),
+               ("save_cond", 3), ("load_cond", 4), ("load_membrane", 3), ("restart", 7), ("delete_process", 4)]
     # swarm: drop some op kinds for this run
     enabled = [k for k, _ in weights if k in ("save_process", "load_process") or o.random() < 0.8]
     perm_listing = o.random() < 0.7
